@@ -70,6 +70,21 @@ def op (ws : List String) : String :=
     | none => "bad-op"
   | _ => "bad-op"
 
+/-- `twice <query>`: the query asked twice on the same range values, then the receiver (and the argument of IsNext)
+    observed again. The model's functions are pure: same answer twice, ranges unchanged. -/
+def opT (ws : List String) : String :=
+  match ws with
+  | "twice" :: inner =>
+    let a := (op inner).replace "ok " "ok:"
+    let recv := match inner with
+      | _ :: r :: _ => (match parseRangeTok r with | some r => showRange r | none => "?")
+      | _ => "?"
+    let arg := match inner with
+      | ["isnext", _, r2, _] => (match parseRangeTok r2 with | some r2 => " arg=" ++ showRange r2 | none => " arg=?")
+      | _ => ""
+    s!"{a} {a} recv={recv}{arg}"
+  | _ => op ws
+
 /-- monitor on the implementation's answer (C19): returns "" when fine, else a reason -/
 def monitor (ws : List String) (impl : List String) : String :=
   if impl == ["panic"] || impl == ["hang"] then
@@ -79,6 +94,15 @@ def monitor (ws : List String) (impl : List String) : String :=
     | _ => "crash-or-hang"
   else
   match ws, impl with
+  | "twice" :: inner, _ =>
+    -- queries do not change the ranges they are asked about, and give the same answer when asked again
+    let want := (opT ("twice" :: inner)).splitOn " "
+    (match impl, want with
+     | a :: b :: rest, _ :: _ :: wrest =>
+       if a != b then "query-gives-a-different-answer-when-asked-again"
+       else if rest != wrest then "query-changes-the-range-it-is-asked-about"
+       else ""
+     | _, _ => "unparsable")
   | ["split", r, c], ["ok", cs] =>
     match parseRangeTok r, parseU64 c, parseRanges cs with
     | some r, some c, some cs => RangeMon.splitVerdict r c cs
